@@ -1,2 +1,9 @@
-import Blackbird
-#print axioms Blackbird.dictGet
+import Blackbird.Props.C15
+#print axioms Blackbird.C15_isPType_examples
+#print axioms Blackbird.C15_parray_by_name
+#print axioms Blackbird.C15_others_by_value
+#print axioms Blackbird.C15_declaration_registers
+#print axioms Blackbird.C15_pnames_not_parameters
+#print axioms Blackbird.C15_no_braces_not_template
+#print axioms Blackbird.C15_reference_serialised_bare
+#print axioms Blackbird.C15_variable_block_arrays
